@@ -1,8 +1,120 @@
 import JokerVerif.Drive.Common
-/-! Driver handlers for C17 (to be filled in). -/
-open Lean Drive
+import JokerVerif.Drive.SDCommon
+import JokerVerif.Model.Samples
+/-! Driver handlers for C17.  Doubles arrive as bit patterns and become exact rationals; unit scales arrive as
+rational strings. -/
+open Lean Drive Drive.SD
 namespace Drive
 
-def samplesOps : List (String × H) := []
+/-- `samples.wrapK {K, omega, h}`: `h` = half a turn in the unit of the omega column -/
+def samplesWrapKOp : H := fun j => do
+  let K ← getRats j "K"; let om ← getRats j "omega"
+  let h := (← getRat j "h") * (← optRatStr j "hscale" 1)
+  if h ≤ 0 then throw "h<=0"
+  let w := List.zipWith (Samples.wrapK Rat.floor h) K.toList om.toList
+  return Json.mkObj [("K", jRats (w.map (·.1))), ("omega", jRats (w.map (·.2)))]
+
+/-- `samples.timeWithPhase {tref, P, Pscale, M0, M0turn, phase, phaseturn}`: angles are sent with the size of a full
+turn in their unit, the model works in turns (`twoPi = 1`) -/
+def samplesTimeOp : H := fun j => do
+  let tref ← getRat j "tref"
+  let P ← getRats j "P"; let ps ← optRatStr j "Pscale" 1
+  let M0 ← getRats j "M0"
+  let m0turn := (← getRat j "M0turn") * (← optRatStr j "M0turnScale" 1)
+  let ph ← getRat j "phase"
+  let phturn := (← getRat j "phaseturn") * (← optRatStr j "phaseturnScale" 1)
+  if m0turn == 0 || phturn == 0 then throw "turn=0"
+  let ts := List.zipWith (fun p m => Samples.timeWithPhase 1 tref (p * ps) (m / m0turn) (ph / phturn)) P.toList M0.toList
+  let back := List.zipWith (fun (pm : Rat × Rat) t => Samples.meanAnomaly 1 tref (pm.1 * ps) (pm.2 / m0turn) t)
+    (List.zip P.toList M0.toList) ts
+  return Json.mkObj [("t", jRats ts), ("meanAnomalyTurns", jRats back), ("phaseTurns", jRat (ph / phturn))]
+
+private def idxTable (n p q : Nat) (tref : Option Rat) : Samples.Table Rat :=
+  { cols := [{ name := "row", unit := ⟨"", 1⟩, vals := (List.range n).map fun (i : Nat) => (i : Rat) },
+             { name := "P", unit := ⟨"d", 1⟩, vals := (List.range n).map fun (i : Nat) => (i : Rat) }],
+    md := { tref := tref, polyTrend := p, nOffsets := q } }
+
+private def jTableRows (r : Except String (Samples.Table Rat)) : Json :=
+  match r with
+  | .error e => Json.mkObj [("error", e)]
+  | .ok t =>
+    let rows := match t.cols with
+      | [] => []
+      | c :: _ => c.vals.map fun v => v.num.toNat
+    let same := t.cols.all fun c => c.vals.map (fun v => v.num.toNat) == rows
+    Json.mkObj [("rows", jNats rows), ("allColumnsSameRows", Json.bool same),
+      ("headers", Json.arr (t.headers.map fun h => Json.arr #[Json.str h.1, Json.str h.2]).toArray),
+      ("polyTrend", jNat t.md.polyTrend), ("nOffsets", jNat t.md.nOffsets), ("tref", jOptRat t.md.tref)]
+
+/-- `samples.index {n, kind: int|idx|mask|slice|copy, ...}` on a table whose rows are numbered -/
+def samplesIndexOp : H := fun j => do
+  let n ← getNat j "n"; let kind ← getStr j "kind"
+  let p ← getNat j "polyTrend"; let q ← getNat j "nOffsets"
+  let tref ← match j.getObjVal? "tref" with
+    | .ok .null => pure none
+    | .ok _ => (some <$> getRat j "tref")
+    | .error _ => pure none
+  let t := idxTable n p q tref
+  match kind with
+  | "int" => return jTableRows (Samples.getInt t (← getInt j "i"))
+  | "idx" => return jTableRows (Samples.getIdx t (← getInts j "idx").toList)
+  | "mask" =>
+    let m ← j.getObjValAs? (Array Bool) "mask"
+    return jTableRows (Samples.getMask t m.toList)
+  | "slice" => return jTableRows (Samples.getSlice t (← optInt j "start") (← optInt j "stop") ((← optInt j "step").getD 1))
+  | "copy" => return jTableRows (.ok (Samples.copy t))
+  | _ => throw "kind"
+
+/-- `samples.median {P}`: the ⌊N/2⌋-th order statistic and the rows holding it -/
+def samplesMedianOp : H := fun j => do
+  let P ← getRats j "P"
+  return Json.mkObj [("value", jOptRat (Samples.medianValue P.toList)),
+    ("candidates", jNats (Samples.medianCandidates P.toList))]
+
+/-- `samples.reduce {cols}`: exact mean and exact population variance of every column -/
+def samplesReduceOp : H := fun j => do
+  let cols ← getArr j "cols"
+  let cs ← cols.toList.mapM fun c => do
+    let a ← (fromJson? c : Except String (Array Nat))
+    if a.all isFiniteBits then pure (a.toList.map fun v => ratOfBits v.toUInt64) else throw "non-finite"
+  let one (f : List Rat → Except String (List Rat)) (v : List Rat) : Json :=
+    match f v with
+    | .ok [x] => jRat x
+    | _ => Json.null
+  return Json.mkObj [("mean", Json.arr (cs.map (one Samples.meanOf)).toArray),
+    ("var", Json.arr (cs.map (one (Samples.stdOf id))).toArray)]
+
+/-- `samples.pack {cols:[{name,label,scale,vals}], names:[..], units:{name:{label,scale}}, tref?, polyTrend, nOffsets}`
+→ packed rows, units used, and the table obtained by unpacking again -/
+def samplesPackOp : H := fun j => do
+  let cols ← getArr j "cols"
+  let cs ← cols.toList.mapM fun c => do
+    let nm ← getStr c "name"; let lb ← getStr c "label"
+    let sc ← ratOfString (← getStr c "scale")
+    let vals ← getRats c "vals"
+    pure ({ name := nm, unit := ⟨lb, sc⟩, vals := vals.toList } : Samples.Col Rat)
+  let names ← j.getObjValAs? (Array String) "names"
+  let uj ← j.getObjVal? "units"
+  let units : String → Option (Samples.QUnit Rat) := fun nm =>
+    match uj.getObjVal? nm with
+    | .ok o => match getStr o "label", (getStr o "scale" >>= ratOfString) with
+      | .ok lb, .ok sc => some ⟨lb, sc⟩
+      | _, _ => none
+    | .error _ => none
+  let md : Samples.Meta Rat := { tref := none, polyTrend := (← getNat j "polyTrend"), nOffsets := (← getNat j "nOffsets") }
+  let t : Samples.Table Rat := { cols := cs, md := md }
+  match Samples.pack t names.toList units with
+  | .error e => return Json.mkObj [("error", e)]
+  | .ok (rows, us) =>
+    let t' := Samples.unpack rows us md
+    return Json.mkObj [("rows", Json.arr (rows.map jRats).toArray),
+      ("units", Json.arr (us.map fun u => Json.arr #[Json.str u.1, Json.str u.2.label]).toArray),
+      ("unpacked", Json.arr (t'.cols.map fun c => Json.mkObj [("name", Json.str c.name), ("label", Json.str c.unit.label),
+         ("vals", jRats c.vals)]).toArray),
+      ("polyTrend", jNat t'.md.polyTrend), ("nOffsets", jNat t'.md.nOffsets)]
+
+def samplesOps : List (String × H) :=
+  [("samples.wrapK", samplesWrapKOp), ("samples.timeWithPhase", samplesTimeOp), ("samples.index", samplesIndexOp),
+   ("samples.median", samplesMedianOp), ("samples.reduce", samplesReduceOp), ("samples.pack", samplesPackOp)]
 
 end Drive
